@@ -187,6 +187,7 @@ class Machine:
         self.mul_seen = set()
         self.png = None
         self.png_resized = None
+        self.png_altered = None
         self.fsolver = z3.Solver()
         self.fsolver.set("timeout", solver.FEAS_TIMEOUT_MS)
         self.assume(self.L >= 0)
@@ -443,7 +444,9 @@ class Machine:
             return self.n
         if name == "hdr":
             return self.hdr
-        if name in ("png_w", "png_h", "png_bitmap", "png_palette", "png_written", "png_resized_w", "png_resized_h", "png_resized"):
+        if name in ("png_w", "png_h", "png_bitmap", "png_palette", "png_written", "png_resized_w", "png_resized_h", "png_resized", "png_altered"):
+            if name == "png_altered":
+                return self.png_altered is not None
             if name == "png_written":
                 return self.png is not None
             if name == "png_resized":
@@ -1278,6 +1281,9 @@ class Machine:
             return self.as_seq(s).length
         if name == "range":
             if len(args) != 1:
+                vals = [self.num(a) for a in args]
+                if len(args) in (2, 3) and all(isinstance(v, int) for v in vals) and (len(vals) < 3 or vals[2] != 0) and len(range(*vals)) <= UNROLL_MAX:
+                    return self.mk_list(list(range(*vals)))      # constant range with start / step: a literal list (unrolled by `for`)
                 raise Unsupported("range with %d arguments" % len(args))
             return ("range", self.num(args[0]))
         if name == "int":
@@ -1482,15 +1488,37 @@ class Machine:
                 return None
         if isinstance(recv, ErrStream) and name == "write":
             return None
+        if isinstance(recv, Opaque) and recv.what == "module-global:struct" and name == "unpack" and len(args) == 2 and isinstance(args[0], str):
+            # struct.unpack for formats of single bytes ("B" unsigned, "b" signed, optional byte-order prefix): struct.error unless
+            # the buffer has exactly one byte per item
+            fmt = args[0].lstrip("<>=!@")
+            if fmt and all(c in "bB" for c in fmt):
+                sq = self.as_seq(args[1])
+                if isinstance(sq.length, int):
+                    if sq.length != len(fmt):
+                        raise RaiseEx("error")
+                elif not self.branch(simp(sq.length == len(fmt)), "struct-length"):
+                    raise RaiseEx("error")
+                out = []
+                for k, c in enumerate(fmt):
+                    b = self.seq_item(sq.with_kind("bytes"), k)
+                    out.append(b if c == "B" else simp(z3.If(to_z3(b) >= 128, to_z3(b) - 256, to_z3(b))) if not isinstance(b, int) else (b - 256 if b >= 128 else b))
+                return tuple(out)
+            raise Unsupported("struct.unpack format %r" % args[0])
         if isinstance(recv, Opaque):
             if recv.what == "argparse-parser":
                 return Opaque("argparse-namespace") if name == "parse_args" else None
             if recv.what == "pil-image":
-                if name == "resize":
+                if name == "resize" and len(args) == 1 and not kwargs:
                     size = args[0]
                     self.png_resized = (self.num(size[0]), self.num(size[1]))
                     return Opaque("pil-image")
-                return Opaque("pil-image") if name not in ("save", "close") else None
+                if name in ("save", "close"):
+                    return None
+                # the assumed contract of Pillow covers open / resize(size) / save only (a palette image stays a palette image with
+                # the same indices, lines repeated): any other operation on the picture is outside it
+                self.png_altered = "%s(%s)" % (name, ", ".join(["..."] * len(args) + sorted(kwargs or {})))
+                return Opaque("pil-image")
         if isinstance(recv, PngWriter) and name == "write_array":
             f, arr = args
             if not isinstance(f, OutStream):
